@@ -6,6 +6,7 @@ definitional axiom on a fresh array, with an explicit trigger.
 import ast
 import z3
 
+from .sym import forall
 from .sym import (Val, Con, ZV, TupV, SetV, DictV, ListV, OptV, StrV, Loc, NONE,
                   TScalar, TInt, TReal, TBool, TStr, TSet, TDict, TList, TTuple,
                   TOpt, OutOfSubset, deref, coerce_term, ite, usort, none_of,
@@ -71,15 +72,15 @@ def hierarchy_axioms():
     a, b, c = z3.Consts('hx hy hz', Ty)
     i = z3.Int('hi')
     ax = [
-        z3.ForAll([a], desc(a, a), patterns=[desc(a, a)]),
-        z3.ForAll([a, b, c], z3.Implies(z3.And(desc(a, b), desc(b, c)), desc(a, c)),
+        forall([a], desc(a, a), patterns=[desc(a, a)]),
+        forall([a, b, c], z3.Implies(z3.And(desc(a, b), desc(b, c)), desc(a, c)),
                   patterns=[z3.MultiPattern(desc(a, b), desc(b, c))]),
-        z3.ForAll([a], subs_len(a) >= 0, patterns=[subs_len(a)]),
-        z3.ForAll([a, i], z3.Implies(z3.And(0 <= i, i < subs_len(a)),
+        forall([a], subs_len(a) >= 0, patterns=[subs_len(a)]),
+        forall([a, i], z3.Implies(z3.And(0 <= i, i < subs_len(a)),
                                      z3.And(desc(a, subs_at(a, i)), subs_at(a, i) != a,
                                             subs_at(a, i) != none_of(Ty))),
                   patterns=[subs_at(a, i)]),
-        z3.ForAll([a, b], z3.Implies(z3.And(desc(a, b), a != b),
+        forall([a, b], z3.Implies(z3.And(desc(a, b), a != b),
                                      z3.And(0 <= next_sub(a, b), next_sub(a, b) < subs_len(a),
                                             desc(subs_at(a, next_sub(a, b)), b))),
                   patterns=[desc(a, b)]),
@@ -439,8 +440,8 @@ class QuantV(Val):
         if not self.vars:
             return f
         if self.patterns:
-            return z3.ForAll(self.vars, f, patterns=self.patterns)
-        return z3.ForAll(self.vars, f)
+            return forall(self.vars, f, patterns=self.patterns)
+        return forall(self.vars, f)
 
     def exists(self):
         f = z3.And(self.guard, self.body)
@@ -491,9 +492,9 @@ def set_enumeration(X, s):
     k = z3.Const('k_enum', K.sort)
     i = z3.Int('i_enum')
     X.assume(n >= 0)
-    X.assume(z3.ForAll([k], z3.Implies(s.arr[k], z3.And(0 <= idx(k), idx(k) < n, at[idx(k)] == k)),
+    X.assume(forall([k], z3.Implies(s.arr[k], z3.And(0 <= idx(k), idx(k) < n, at[idx(k)] == k)),
                        patterns=[idx(k), s.arr[k]]))
-    X.assume(z3.ForAll([i], z3.Implies(z3.And(0 <= i, i < n),
+    X.assume(forall([i], z3.Implies(z3.And(0 <= i, i < n),
                                        z3.And(s.arr[at[i]], idx(at[i]) == i)),
                        patterns=[at[i]]))
     lv = ListV(K, n, [at])
@@ -509,23 +510,27 @@ def list_map(X, lst, f, E):
     i = z3.Int('i_map')
     img = E.to_leaves(f(lst.at(i)))
     for a, l in zip(ats, img):
-        X.assume(z3.ForAll([i], z3.Implies(z3.And(0 <= i, i < lst.n), a[i] == l),
+        X.assume(forall([i], z3.Implies(z3.And(0 <= i, i < lst.n), a[i] == l),
                            patterns=[a[i]]))
     return ListV(E, lst.n, ats)
 
 
-def list_to_set(X, lv):
-    E = lv.E
-    arr = z3.Const(X.fresh_name('lset'), z3.ArraySort(E.sort, z3.BoolSort()))
-    wit = z3.Function(X.fresh_name('lset_wit'), E.sort, z3.IntSort())
-    k = z3.Const('k_ls', E.sort)
+def list_to_set(X, lv, K=None):
+    """Set of the elements of a symbolic list (element type adapted to K)."""
+    K = K or lv.E
+    arr = z3.Const(X.fresh_name('lset'), z3.ArraySort(K.sort, z3.BoolSort()))
+    wit = z3.Function(X.fresh_name('lset_wit'), K.sort, z3.IntSort())
+    k = z3.Const('k_ls', K.sort)
     i = z3.Int('i_ls')
-    X.assume(z3.ForAll([k], z3.Implies(arr[k], z3.And(0 <= wit(k), wit(k) < lv.n,
-                                                      lv.ats[0][wit(k)] == k)),
-                       patterns=[arr[k]]))
-    X.assume(z3.ForAll([i], z3.Implies(z3.And(0 <= i, i < lv.n), arr[lv.ats[0][i]]),
-                       patterns=[lv.ats[0][i]]))
-    return SetV(E, arr)
+
+    def elem(j):
+        return K.to_leaves(lv.at(j))[0]
+    X.assume(forall([k], z3.Implies(arr[k], z3.And(0 <= wit(k), wit(k) < lv.n,
+                                                   elem(wit(k)) == k)),
+                    patterns=[arr[k]]))
+    X.assume(forall([i], z3.Implies(z3.And(0 <= i, i < lv.n), arr[elem(i)]),
+                    patterns=[a[i] for a in lv.ats]))
+    return SetV(K, arr)
 
 
 def filter_list(X, lf, node):
@@ -553,11 +558,11 @@ def filter_list(X, lf, node):
     body = [0 <= emb(i), emb(i) < src.n, pred(src.at(emb(i))), inv(emb(i)) == i]
     for a, sa in zip(ats, src.ats):
         body.append(a[i] == sa[emb(i)])
-    X.assume(z3.ForAll([i], z3.Implies(z3.And(0 <= i, i < n), z3.And(*body)),
+    X.assume(forall([i], z3.Implies(z3.And(0 <= i, i < n), z3.And(*body)),
                        patterns=[emb(i)] + [a[i] for a in ats]))
-    X.assume(z3.ForAll([i, j], z3.Implies(z3.And(0 <= i, i < j, j < n), emb(i) < emb(j)),
+    X.assume(forall([i, j], z3.Implies(z3.And(0 <= i, i < j, j < n), emb(i) < emb(j)),
                        patterns=[z3.MultiPattern(emb(i), emb(j))]))
-    X.assume(z3.ForAll([j], z3.Implies(z3.And(0 <= j, j < src.n, pred(src.at(j))),
+    X.assume(forall([j], z3.Implies(z3.And(0 <= j, j < src.n, pred(src.at(j))),
                                        z3.And(0 <= inv(j), inv(j) < n, emb(inv(j)) == j)),
                        patterns=[inv(j)] + [sa[j] for sa in src.ats]))
     return ListV(E, n, ats)
@@ -579,7 +584,7 @@ def list_eq(X, a, b):
     i = z3.Int('i_leq')
     conj = [a.n == b.n]
     for x, y in zip(a.ats, b.ats):
-        conj.append(z3.ForAll([i], z3.Implies(z3.And(0 <= i, i < a.n), x[i] == y[i]),
+        conj.append(forall([i], z3.Implies(z3.And(0 <= i, i < a.n), x[i] == y[i]),
                               patterns=[x[i], y[i]]))
     return z3.And(*conj)
 
@@ -588,7 +593,7 @@ def dict_eq(X, a, b):
     k = z3.Const('k_deq', a.K.sort)
     conj = [a.dom == b.dom]
     for x, y in zip(a.vals, b.vals):
-        conj.append(z3.ForAll([k], z3.Implies(a.dom[k], x[k] == y[k]), patterns=[x[k], y[k]]))
+        conj.append(forall([k], z3.Implies(a.dom[k], x[k] == y[k]), patterns=[x[k], y[k]]))
     return z3.And(*conj)
 
 
@@ -606,7 +611,7 @@ def list_extend(X, a, b):
                for s in E.leaf_sorts()]
         i = z3.Int('i_ext')
         for na, aa, ba in zip(ats, a.ats, b.ats):
-            X.assume(z3.ForAll([i], na[i] == z3.If(i < a.n, aa[i], ba[i - a.n]),
+            X.assume(forall([i], na[i] == z3.If(i < a.n, aa[i], ba[i - a.n]),
                                patterns=[na[i]]))
         X.assume(b.n >= 0)
         return ListV(E, a.n + b.n, ats)
@@ -728,7 +733,7 @@ def set_item(X, cont, key, v, node):
         kt = coerce_term(k, c.K.sort)
         if isinstance(v, Loc) and isinstance(c.V, (TSet, TDict, TList)):
             X.unsupported('aliasing store of a heap container', node)
-        _write_back(X, cont, c.store(kt, v), node)
+        _write_back(X, cont, c.store(kt, X.adapt(v, c.V)), node)
         return
     if isinstance(c, ListV):
         j = norm_index(X, c.n, k, node)
@@ -798,7 +803,7 @@ def get_slice(X, cont, sl, fr, node):
         ats = [z3.Const(X.fresh_name('slc_at'), a.sort()) for a in c.ats]
         i = z3.Int('i_slc')
         for na, a in zip(ats, c.ats):
-            X.assume(z3.ForAll([i], na[i] == a[i + lo_t], patterns=[na[i]]))
+            X.assume(forall([i], na[i] == a[i + lo_t], patterns=[na[i]]))
         return ListV(c.E, z3.simplify(n), ats)
     X.unsupported('slice of %r' % (c,), node)
 
@@ -859,7 +864,7 @@ def contains(X, cont, item, node):
         neq = [a[j] == l for a, l in zip(c.ats, c.E.to_leaves(it))]
         b = z3.Bool(X.fresh_name('in_list'))
         X.assume(z3.Implies(b, z3.And(0 <= i, i < c.n, *eqs)))
-        X.assume(z3.Implies(z3.Not(b), z3.ForAll([j], z3.Implies(z3.And(0 <= j, j < c.n),
+        X.assume(z3.Implies(z3.Not(b), forall([j], z3.Implies(z3.And(0 <= j, j < c.n),
                                                                  z3.Not(z3.And(*neq))),
                                                  patterns=[c.ats[0][j]])))
         return b
@@ -1132,7 +1137,7 @@ def list_popleft(X, obj, args, kw, node):
     ats = [z3.Const(X.fresh_name('popl_at'), a.sort()) for a in c.ats]
     i = z3.Int('i_popl')
     for na, a in zip(ats, c.ats):
-        X.assume(z3.ForAll([i], na[i] == a[i + 1], patterns=[na[i]]))
+        X.assume(forall([i], na[i] == a[i + 1], patterns=[na[i]]))
     _write_back(X, obj, ListV(c.E, c.n - 1, ats), node)
     return v
 
@@ -1151,7 +1156,7 @@ def list_insert(X, obj, args, kw, node):
         ats = [z3.Const(X.fresh_name('ins_at'), a.sort()) for a in c.ats]
         i = z3.Int('i_ins')
         for na, a, l in zip(ats, c.ats, lv):
-            X.assume(z3.ForAll([i], na[i] == z3.If(i < p, a[i], z3.If(i == p, l, a[i - 1])),
+            X.assume(forall([i], na[i] == z3.If(i < p, a[i], z3.If(i == p, l, a[i - 1])),
                                patterns=[na[i]]))
         _write_back(X, obj, ListV(c.E, c.n + 1, ats), node)
         return NONE
@@ -1187,10 +1192,10 @@ def list_rotate(X, obj, args, kw, node):
     i = z3.Int('i_rot')
     for na, a in zip(ats, c.ats):
         if k.v == -1:
-            X.assume(z3.ForAll([i], na[i] == z3.If(i == c.n - 1, a[0], a[i + 1]),
+            X.assume(forall([i], na[i] == z3.If(i == c.n - 1, a[0], a[i + 1]),
                                patterns=[na[i]]))
         else:
-            X.assume(z3.ForAll([i], na[i] == z3.If(i == 0, a[c.n - 1], a[i - 1]),
+            X.assume(forall([i], na[i] == z3.If(i == 0, a[c.n - 1], a[i - 1]),
                                patterns=[na[i]]))
     # rotating an empty deque is a no-op; n unchanged
     _write_back(X, obj, ListV(c.E, c.n, ats), node)
